@@ -222,6 +222,9 @@ pub const VARIANTS: &[&str] = &[
     "wide-rich-inc",
     "layout-trap-vl",
     "plain-vl",
+    "nonresource",
+    "nonresource-rq",
+    "nonresource-ts",
 ];
 
 fn decls_of(p: &Program) -> Vec<DeclDesc> {
@@ -476,6 +479,17 @@ fn build_with(seed: u64, variant: &str, drops: &str) -> Option<Built> {
             }
             includes.push(("common/decls.rssl".into(), common));
             main
+        }
+        "nonresource" | "nonresource-rq" | "nonresource-ts" => {
+            // a global of an object type that is not a resource (no register class: fix 774c0b4): it takes no slot on any
+            // target and every exporter refuses it with UnsupportedObjectType (DirectX used to panic while assigning slots)
+            let (kind, ty) = match variant {
+                "nonresource" => ("RayDesc", "RayDesc"),
+                "nonresource-rq" => ("RayQuery", "RayQuery<0>"),
+                _ => ("TriangleStream", "TriangleStream<float4>"),
+            };
+            decls.push(DeclDesc { name: "g_nonresource".into(), kind: kind.into(), len: "-".into(), ss: false });
+            insert_lines(&src, ff, &format!("{} g_nonresource;", ty))
         }
         "layout-trap" | "layout-trap-vl" => {
             // a struct whose HLSL structured-buffer layout and Metal layout differ: accepted everywhere as long as the
@@ -1495,6 +1509,8 @@ fn pp_real(src: &str, defines: &[(String, String)]) -> String {
                     E::ElseNotMatched => "ElseNotMatched".to_string(),
                     E::EndIfNotMatched => "EndIfNotMatched".to_string(),
                     E::ConditionChainNotFinished => "ConditionChainNotFinished".to_string(),
+                    E::ElseAfterElse(_) => "ElseAfterElse".to_string(),
+                    E::ElifAfterElse(_) => "ElifAfterElse".to_string(),
                     E::FailedToParseIfCondition(_)
                     | E::MacroExpectsDifferentNumberOfArguments
                     | E::MacroArgumentsNeverEnd
